@@ -280,6 +280,7 @@ class Verdict:
         self.audit_disagreements = 0
         self.audit_samples = []
         self.tool_errors = []
+        shutil.rmtree(os.path.join(REPLAY, prop), ignore_errors=True)   # replay files belong to one run
 
     def known_dev(self, dev):
         """finding entry (status known) for an as-built deviation flag, or None"""
